@@ -1079,6 +1079,18 @@ fn gen_field(rng: &mut Rng, name: &str, out_types: &[String], in_types: &[String
 fn gen_fields(rng: &mut Rng, out_types: &[String], in_types: &[String], dist: &mut Dist) -> Vec<Sexp> {
     let mut fnm = vec!["id", "name", "b", "a", "Zed", "_u"];
     rng.shuffle(&mut fnm);
+    // the names of the federation machinery's root fields, as ordinary fields
+    if rng.chance(1, 25) {
+        dist.hit("fields_named_like_federation_machinery");
+        if rng.chance(1, 2) {
+            fnm.insert(0, "_service");
+            if rng.chance(1, 3) {
+                fnm.insert(1, "_entities");
+            }
+        } else {
+            fnm.insert(0, "_entities");
+        }
+    }
     let n = 1 + rng.below(3);
     fnm[..n].iter().map(|f| gen_field(rng, f, out_types, in_types, dist)).collect()
 }
